@@ -8,7 +8,8 @@
 // case = [2, reason, nbit]                                 gr_on_disconnect alone (C10)
 //   events: [0, fams, local_gr, remote_gr, local_llgr, remote_llgr] up (capabilities; gr = [[fams], restart, nbit], llgr = [[f, t]..]) | [1, f, id, no_llgr, llgr_comm] announce | [2, f] eor
 //           | [3, reason] down | [4] failed connect | [5] restart timer | [6, f] llgr timer
-//           | [7] force_down | [8, b] admin_down
+//           | [7] force_down | [8, b] admin_down | [9] second connection opens | [10] second connection goes away
+//           | [11, remote_gr, remote_llgr, hold] the neighbour's OPEN on the second connection
 use super::super::*;
 
 #[allow(dead_code)]
@@ -391,6 +392,17 @@ fn caps_of(fams: &[Family], asn: u32, gr: &Val, llgr: &Val) -> Vec<packet::Capab
     c
 }
 
+fn other_role(r: crate::fsm::Role) -> crate::fsm::Role {
+    match r {
+        crate::fsm::Role::Active => crate::fsm::Role::Passive,
+        crate::fsm::Role::Passive => crate::fsm::Role::Active,
+    }
+}
+
+/// how long the end of a session task is waited for once its cause has been given (it is immediate; a session that
+/// does not end is a failure of the case, and many cases may fail)
+const END_WAIT: u64 = 4;
+
 async fn settle() {
     for _ in 0..50 {
         tokio::task::yield_now().await;
@@ -409,6 +421,7 @@ struct Live {
     handle: tokio::task::JoinHandle<()>,
     generation: i128,
     neg: Val,
+    role: crate::fsm::Role,
 }
 
 impl Live {
@@ -425,6 +438,7 @@ impl Live {
         let mut spins = 0u32;
         while self.counter.total.load(Ordering::Relaxed) < self.base + self.sent {
             tokio::time::sleep(Duration::from_millis(1)).await;
+            assert!(!self.handle.is_finished(), "verif: the session ended while messages were on their way");
             spins += 1;
             assert!(spins < 5000, "verif: the session did not read the messages");
         }
@@ -456,9 +470,22 @@ impl Live {
             }
         }
     }
-    async fn finished(self) {
+    /// the neighbour closes the socket, then the session ends
+    async fn finished_after_close(self) {
         let Live { client, handle, .. } = self;
-        tokio::time::timeout(Duration::from_secs(15), handle)
+        drop(client);
+        tokio::time::timeout(Duration::from_secs(END_WAIT), handle)
+            .await
+            .expect("verif: the connection did not end")
+            .expect("verif: session task panicked");
+        settle().await;
+    }
+    async fn finished(self) {
+        self.finished_within(END_WAIT).await
+    }
+    async fn finished_within(self, secs: u64) {
+        let Live { client, handle, .. } = self;
+        tokio::time::timeout(Duration::from_secs(secs), handle)
             .await
             .expect("verif: the session did not end")
             .expect("verif: session task panicked");
@@ -477,6 +504,7 @@ async fn start_session(
     tables: &TableHandle,
     addr: IpAddr,
     local_cap: Vec<packet::Capability>,
+    role: crate::fsm::Role,
     active_tx: &mpsc::UnboundedSender<TcpStream>,
 ) -> (TcpStream, Option<(Arc<MessageCounter>, tokio::task::JoinHandle<()>)>) {
     let listener = TcpListener::bind("127.0.0.1:0").await.unwrap();
@@ -493,7 +521,7 @@ async fn start_session(
         let live = {
             let ctx = peer.context.lock().unwrap();
             let arb = ctx.conn_arbiter.lock().unwrap();
-            arb.passive_close_tx.is_some()
+            arb.passive_close_tx.is_some() || arb.active_close_tx.is_some()
         };
         if !live {
             peer.config.local_cap = local_cap.clone();
@@ -509,7 +537,7 @@ async fn start_session(
                 Arc::new(std::sync::Mutex::new(ConnArbiter::new(fsm)));
         }
     }
-    match accept_connection(global, tables, server, crate::fsm::Role::Passive).await {
+    match accept_connection(global, tables, server, role).await {
         None => (client, None),
         Some(s) => {
             let counter = Arc::clone(&s.counter_rx);
@@ -573,6 +601,78 @@ fn observe(
     ])
 }
 
+/// what apply_outputs negotiates for these capabilities, observed on a throw-away session of its own
+async fn negotiation_probe(
+    addr: IpAddr,
+    local_cap: &[packet::Capability],
+    remote_cap: &[packet::Capability],
+) -> Val {
+    let mut probe = PeerSession::new_for_test(addr, mk_context(), Arc::new(TableManager::new(1)));
+    probe.local_cap = local_cap.to_vec();
+    let codec = bgp::PeerCodec::negotiate(local_cap, remote_cap);
+    let role = probe.role;
+    let outputs = vec![
+        crate::fsm::PeerFsmOutput::Connection(role, crate::fsm::Output::SessionNegotiated(codec)),
+        crate::fsm::PeerFsmOutput::Connection(
+            role,
+            crate::fsm::Output::SessionEstablished {
+                remote_asn: PEER_ASN,
+                remote_id: 1,
+                remote_holdtime: 90,
+                remote_capabilities: remote_cap.to_vec(),
+                effective_max: FnvHashMap::default(),
+            },
+        ),
+    ];
+    let sa: SocketAddr = "192.0.2.254:179".parse().unwrap();
+    let _ = probe.apply_outputs(outputs, sa, sa).await;
+    Val::L(vec![
+        Val::opt(probe.negotiated_gr.as_ref().map(|g| {
+            Val::L(vec![
+                Val::L(g.families.iter().map(|f| Val::I(fam_code(f))).collect()),
+                Val::n(g.restart_time.as_secs()),
+                Val::b(g.notification_enabled),
+            ])
+        })),
+        Val::opt(probe.negotiated_llgr.as_ref().map(|l| {
+            Val::L(l.families
+                .iter()
+                .map(|(f, d)| Val::L(vec![Val::I(fam_code(f)), Val::n(d.as_secs())]))
+                .collect())
+        })),
+    ])
+}
+
+/// the OPEN exchange as the neighbour, up to the point where the session has finished establishing
+async fn open_exchange(lv: &mut Live, remote_cap: &[packet::Capability], hold: u16) {
+    let their_open = loop {
+        match lv.recv().await {
+            Some(bgp::Message::Open(o)) => break o,
+            Some(_) => {}
+            None => panic!("verif: the session closed before its OPEN"),
+        }
+    };
+    let open = bgp::Message::Open(bgp::Open {
+        as_number: PEER_ASN,
+        router_id: u32::from(std::net::Ipv4Addr::new(192, 0, 2, 1)),
+        holdtime: HoldTime::new(hold).expect("hold time"),
+        capability: remote_cap.to_vec(),
+    });
+    lv.send(&[open, bgp::Message::Keepalive]).await;
+    lv.peer_codec = bgp::PeerCodec::negotiate(remote_cap, &their_open.capability);
+    // Established is over (on_established, the effects) once the End-of-RIB of every family of the
+    // session has been sent to us
+    let mut eors = 0;
+    let want = lv.fams.len() + 1;
+    while eors < want {
+        match lv.recv().await {
+            Some(bgp::Message::Update(bgp::Update::EndOfRib(_))) => eors += 1,
+            Some(_) => {}
+            None => panic!("verif: the session closed during establishment"),
+        }
+    }
+}
+
 async fn run_helper_case(l: &[Val]) -> Val {
     let global = mk_global();
     let tables: TableHandle = Arc::new(TableManager::new(1));
@@ -612,6 +712,13 @@ async fn run_helper_case(l: &[Val]) -> Val {
     }
     let context = Arc::clone(&global.read().await.peers.get(&addr).unwrap().context);
     let mut live: Option<Live> = None;
+    // a second connection of the same neighbour (Role::Active slot of the ConnArbiter), still before Established
+    let mut sibling: Option<Live> = None;
+    let mut cur_fams: Vec<Family> = vec![Family::IPV4];
+    let mut cur_local_cap: Vec<packet::Capability> = caps_of(&cur_fams, 65001, &Val::L(vec![]), &Val::L(vec![]));
+    // [1, events, role]: the slot of the ConnArbiter the sessions of the history use (0 / absent: Role::Passive,
+    // 1: Role::Active); the second connection uses the other one
+    let prim_role = if l.len() > 2 && l[2].int() == 1 { crate::fsm::Role::Active } else { crate::fsm::Role::Passive };
     let mut generation: i128 = 0;
     let mut obs = Vec::new();
     for ev in l[1].list() {
@@ -624,52 +731,11 @@ async fn run_helper_case(l: &[Val]) -> Val {
                     let fams: Vec<Family> = e[1].list().iter().map(fam_of).collect();
                     let local_cap = caps_of(&fams, 65001, &e[2], &e[4]);
                     let remote_cap = caps_of(&fams, PEER_ASN, &e[3], &e[5]);
-                    // what apply_outputs negotiates, observed on a throw-away session of its own
-                    let neg = {
-                        let mut probe = PeerSession::new_for_test(
-                            addr,
-                            mk_context(),
-                            Arc::new(TableManager::new(1)),
-                        );
-                        probe.local_cap = local_cap.clone();
-                        let codec = bgp::PeerCodec::negotiate(&local_cap, &remote_cap);
-                        let role = probe.role;
-                        let outputs = vec![
-                            crate::fsm::PeerFsmOutput::Connection(
-                                role,
-                                crate::fsm::Output::SessionNegotiated(codec),
-                            ),
-                            crate::fsm::PeerFsmOutput::Connection(
-                                role,
-                                crate::fsm::Output::SessionEstablished {
-                                    remote_asn: PEER_ASN,
-                                    remote_id: 1,
-                                    remote_holdtime: 90,
-                                    remote_capabilities: remote_cap.clone(),
-                                    effective_max: FnvHashMap::default(),
-                                },
-                            ),
-                        ];
-                        let sa: SocketAddr = "192.0.2.254:179".parse().unwrap();
-                        let _ = probe.apply_outputs(outputs, sa, sa).await;
-                        Val::L(vec![
-                            Val::opt(probe.negotiated_gr.as_ref().map(|g| {
-                                Val::L(vec![
-                                    Val::L(g.families.iter().map(|f| Val::I(fam_code(f))).collect()),
-                                    Val::n(g.restart_time.as_secs()),
-                                    Val::b(g.notification_enabled),
-                                ])
-                            })),
-                            Val::opt(probe.negotiated_llgr.as_ref().map(|l| {
-                                Val::L(l.families
-                                    .iter()
-                                    .map(|(f, d)| Val::L(vec![Val::I(fam_code(f)), Val::n(d.as_secs())]))
-                                    .collect())
-                            })),
-                        ])
-                    };
+                    let neg = negotiation_probe(addr, &local_cap, &remote_cap).await;
+                    cur_local_cap = local_cap.clone();
+                    cur_fams = fams.clone();
                     let (client, started) =
-                        start_session(&global, &tables, addr, local_cap, &active_tx).await;
+                        start_session(&global, &tables, addr, local_cap, prim_role, &active_tx).await;
                     let Some((counter, handle)) = started else {
                         // refused (admin-down peer): the neighbour sees the socket close
                         generation -= 1;
@@ -690,34 +756,9 @@ async fn run_helper_case(l: &[Val]) -> Val {
                         handle,
                         generation,
                         neg,
+                        role: prim_role,
                     };
-                    // the OPEN exchange, as the neighbour
-                    let their_open = loop {
-                        match lv.recv().await {
-                            Some(bgp::Message::Open(o)) => break o,
-                            Some(_) => {}
-                            None => panic!("verif: the session closed before its OPEN"),
-                        }
-                    };
-                    let hold = e[6].u16();
-                    let open = bgp::Message::Open(bgp::Open {
-                        as_number: PEER_ASN,
-                        router_id: u32::from(std::net::Ipv4Addr::new(192, 0, 2, 1)),
-                        holdtime: HoldTime::new(hold).expect("hold time"),
-                        capability: remote_cap.clone(),
-                    });
-                    lv.send(&[open, bgp::Message::Keepalive]).await;
-                    lv.peer_codec = bgp::PeerCodec::negotiate(&remote_cap, &their_open.capability);
-                    // Established is over (on_established, the effects) once the End-of-RIB of
-                    // every family of the session has been sent to us
-                    let mut eors = 0;
-                    while eors < fams.len() + 1 {
-                        match lv.recv().await {
-                            Some(bgp::Message::Update(bgp::Update::EndOfRib(_))) => eors += 1,
-                            Some(_) => {}
-                            None => panic!("verif: the session closed during establishment"),
-                        }
-                    }
+                    open_exchange(&mut lv, &remote_cap, e[6].u16()).await;
                     lv.sync().await;
                     live = Some(lv);
                 }
@@ -755,7 +796,7 @@ async fn run_helper_case(l: &[Val]) -> Val {
                             // TCP failure: the neighbour's socket goes away
                             let Live { client, handle, .. } = lv;
                             drop(client);
-                            tokio::time::timeout(Duration::from_secs(15), handle)
+                            tokio::time::timeout(Duration::from_secs(END_WAIT), handle)
                                 .await
                                 .expect("verif: the session did not end")
                                 .expect("verif: session task panicked");
@@ -793,14 +834,17 @@ async fn run_helper_case(l: &[Val]) -> Val {
                         }
                         6 => {
                             // silence until the (3 s) hold timer of the session expires
-                            lv.finished().await;
+                            lv.finished_within(15).await;
                         }
                         7 => {
                             // disable_peer: the close channel accept_connection registered
                             let tx = {
                                 let ctx = context.lock().unwrap();
                                 let mut arb = ctx.conn_arbiter.lock().unwrap();
-                                arb.passive_close_tx.take()
+                                match lv.role {
+                                    crate::fsm::Role::Passive => arb.passive_close_tx.take(),
+                                    crate::fsm::Role::Active => arb.active_close_tx.take(),
+                                }
                             };
                             let _ = tx.expect("verif: no close channel").send(CloseReason::AdminShutdown);
                             lv.finished().await;
@@ -816,12 +860,13 @@ async fn run_helper_case(l: &[Val]) -> Val {
                     &tables,
                     addr,
                     caps_of(&[Family::IPV4], 65001, &Val::L(vec![]), &Val::L(vec![])),
+                    live.as_ref().map_or(prim_role, |lv| lv.role),
                     &active_tx,
                 )
                 .await;
                 drop(client);
                 if let Some((_counter, handle)) = started {
-                    tokio::time::timeout(Duration::from_secs(15), handle)
+                    tokio::time::timeout(Duration::from_secs(END_WAIT), handle)
                         .await
                         .expect("verif: the connection attempt did not end")
                         .expect("verif: session task panicked");
@@ -860,6 +905,118 @@ async fn run_helper_case(l: &[Val]) -> Val {
                 if let Some(lv) = live.take() {
                     lv.finished().await;
                 }
+                if let Some(sb) = sibling.take() {
+                    sb.finished().await;
+                }
+            }
+            9 => {
+                // the neighbour opens a second connection while its first one exists: it is accepted into the
+                // other slot of the ConnArbiter (the role of an outgoing connection of ours) and stays in OpenSent
+                if sibling.is_none() {
+                    // the slot the session does not use (a second connection that became the session keeps its slot)
+                    let sib_role = other_role(live.as_ref().map_or(prim_role, |lv| lv.role));
+                    let (client, started) = start_session(
+                        &global,
+                        &tables,
+                        addr,
+                        cur_local_cap.clone(),
+                        sib_role,
+                        &active_tx,
+                    )
+                    .await;
+                    match started {
+                        None => drop(client),
+                        Some((counter, handle)) => {
+                            let base = counter.total.load(Ordering::Relaxed);
+                            sibling = Some(Live {
+                                client,
+                                rxbuf: bytes::BytesMut::new(),
+                                peer_codec: bgp::PeerCodec::new(),
+                                fams: cur_fams.clone(),
+                                counter,
+                                base,
+                                sent: 0,
+                                handle,
+                                generation: 0,
+                                neg: Val::L(vec![]),
+                                role: sib_role,
+                            });
+                        }
+                    }
+                }
+            }
+            10 => {
+                // [10, stage]: the second connection goes away before Established: in OpenSent (stage 0), or after
+                // the neighbour's OPEN (stage 1: OpenConfirm -- or, while the first session is Established, the
+                // collision it loses)
+                if let Some(mut sb) = sibling.take() {
+                    if e.len() > 1 && e[1].int() == 1 {
+                        sb.base = sb.counter.total.load(Ordering::Relaxed);
+                        let remote_cap = caps_of(&cur_fams, PEER_ASN, &Val::L(vec![]), &Val::L(vec![]));
+                        let open = bgp::Message::Open(bgp::Open {
+                            as_number: PEER_ASN,
+                            router_id: u32::from(std::net::Ipv4Addr::new(192, 0, 2, 1)),
+                            holdtime: HoldTime::new(90).expect("hold time"),
+                            capability: remote_cap,
+                        });
+                        sb.send(&[open]).await;
+                        // until the OPEN has been taken off the wire (the counter of received messages is per peer)
+                        let mut spins = 0u32;
+                        while sb.counter.total.load(Ordering::Relaxed) < sb.base + sb.sent
+                            && !sb.handle.is_finished()
+                        {
+                            tokio::time::sleep(Duration::from_millis(1)).await;
+                            spins += 1;
+                            assert!(spins < 5000, "verif: the second connection did not read the OPEN");
+                        }
+                        settle().await;
+                        if let Some(lv) = live.as_mut() {
+                            lv.base += sb.sent;
+                        }
+                    }
+                    sb.finished_after_close().await;
+                }
+            }
+            11 => {
+                // [11, remote_gr, remote_llgr, hold]: the neighbour sends its OPEN on the second connection.
+                // While the first session is Established this is a collision the second connection loses
+                // (Cease / Connection Collision Resolution); otherwise it becomes the session.
+                if let Some(mut sb) = sibling.take() {
+                    let remote_cap = caps_of(&cur_fams, PEER_ASN, &e[1], &e[2]);
+                    if live.is_some() {
+                        let their_open = loop {
+                            match sb.recv().await {
+                                Some(bgp::Message::Open(o)) => break o,
+                                Some(_) => {}
+                                None => panic!("verif: the second connection closed before its OPEN"),
+                            }
+                        };
+                        let _ = their_open;
+                        let open = bgp::Message::Open(bgp::Open {
+                            as_number: PEER_ASN,
+                            router_id: u32::from(std::net::Ipv4Addr::new(192, 0, 2, 1)),
+                            holdtime: HoldTime::new(90).unwrap(),
+                            capability: remote_cap,
+                        });
+                        sb.send(&[open]).await;
+                        let sent = sb.sent;
+                        sb.finished().await;
+                        if let Some(lv) = live.as_mut() {
+                            // the counter of received messages is per peer
+                            lv.base += sent;
+                        }
+                    } else {
+                        generation += 1;
+                        sb.generation = generation;
+                        sb.neg = negotiation_probe(addr, &cur_local_cap, &remote_cap).await;
+                        // the counter of received messages is per peer: start counting from here
+                        sb.base = sb.counter.total.load(Ordering::Relaxed);
+                        sb.sent = 0;
+                        open_exchange(&mut sb, &remote_cap, e[3].u16()).await;
+                        sb.sync().await;
+                        live = Some(sb);
+                    }
+                }
             }
             8 => {
                 // disable_peer / enable_peer set this field of the Peer record
@@ -875,10 +1032,15 @@ async fn run_helper_case(l: &[Val]) -> Val {
         obs.push(observe(&context, &tables, addr, &neg));
     }
     // leave no session task behind
+    if let Some(sb) = sibling.take() {
+        let Live { client, handle, .. } = sb;
+        drop(client);
+        let _ = tokio::time::timeout(Duration::from_secs(END_WAIT), handle).await;
+    }
     if let Some(lv) = live.take() {
         let Live { client, handle, .. } = lv;
         drop(client);
-        let _ = tokio::time::timeout(Duration::from_secs(15), handle).await;
+        let _ = tokio::time::timeout(Duration::from_secs(END_WAIT), handle).await;
     }
     Val::L(obs)
 }
